@@ -96,7 +96,7 @@ func events(f *fn) []event {
 							add("unrecognised", "lock expression "+types.ExprString(sel.X), x.Pos())
 							return true
 						}
-						k := map[string]string{"Lock": "lock", "Unlock": "unlock", "Add": "wgAdd", "Done": "wgDone", "Wait": "wgWait"}[sel.Sel.Name]
+						k := map[string]string{"Lock": "lock", "Unlock": "unlock", "RLock": "lock", "RUnlock": "unlock", "Add": "wgAdd", "Done": "wgDone", "Wait": "wgWait"}[sel.Sel.Name]
 						if k == "" {
 							add("unrecognised", "sync operation "+sel.Sel.Name, x.Pos())
 							return true
